@@ -124,11 +124,13 @@ theorem adjAny_order (xs : List Rat) : adjAny gen_Interpolation_order xs = !Inte
     cases r with
     | nil => simp [adjAny, Interp.strictlyIncreasing]
     | cons b r' =>
+      have e : gen_Interpolation_order a b = !decide (a < b) := by
+        unfold gen_Interpolation_order
+        first
+          | rfl
+          | (rw [Bool.eq_iff_iff]; first | done | (simp <;> gen_arith))
       unfold adjAny Interp.strictlyIncreasing
-      rw [ih, Bool.not_and]
-      congr 1
-      unfold gen_Interpolation_order
-      rw [Bool.eq_iff_iff]; simp <;> gen_arith
+      rw [ih, Bool.not_and, e]
 
 theorem gen_Interpolation_eq (xs ys : List Rat) (xd fd : Rat) :
     (gen_Interpolation_lengths xs.length ys.length || gen_Interpolation_short xs.length || adjAny gen_Interpolation_order xs)
@@ -197,11 +199,20 @@ theorem gen_Inv_GammaP_eq (a : Rat) : gen_Inv_GammaP a = (invGammaPGuard a).stop
   unfold gen_Inv_GammaP invGammaPGuard; gen_eq
 theorem gen_Round_digits_eq (N : Rat) (digits : Nat) : gen_Round_digits digits = (roundGuard N digits).stops := by
   unfold gen_Round_digits gen_Round_digits_max roundGuard; gen_eq
-/-- `if(fabs(p - 1.0) < 1e-16) return 10; else if(fabs(p) >= 1.0) exit` -/
-theorem gen_Inv_Erf_eq (p : Rat) : (!gen_Inv_Erf_saturated p && gen_Inv_Erf_outside p) = (invErfGuard p).stops := by
-  unfold gen_Inv_Erf_saturated gen_Inv_Erf_outside invErfGuard invErfEps
+/-- `if(fabs(p - 1.0) < 1e-16) return 10; else if(fabs(p + 1.0) < 1e-16) return -10; else if(fabs(p) >= 1.0) exit` -/
+theorem gen_Inv_Erf_eq (p : Rat) :
+    (!gen_Inv_Erf_saturated p && !gen_Inv_Erf_saturated_minus p && gen_Inv_Erf_outside p) = (invErfGuard p).stops := by
+  unfold gen_Inv_Erf_saturated gen_Inv_Erf_saturated_minus gen_Inv_Erf_outside invErfGuard invErfEps
   have e : ((1 : Rat) / 10000000000000000) = 1 / 10 ^ 16 := by norm_num
-  split_ifs <;> simp_all [G.stops, stop, pass] <;> gen_arith
+  rw [e]
+  generalize (1 : Rat) / 10 ^ 16 = ε
+  by_cases h1 : rabs (p - 1) < ε
+  · simp [h1, G.stops, pass]
+  · by_cases h2 : rabs (p + 1) < ε
+    · simp [h1, h2, G.stops, pass]
+    · by_cases h3 : rabs p ≥ 1
+      · simp [h1, h2, h3, G.stops, stop]
+      · simp [h1, h2, h3, G.stops, pass]
 
 /-! ## Statistics -/
 theorem gen_PMF_Binomial_eq (p : Rat) : gen_PMF_Binomial p = (probabilityGuard p).stops := by
@@ -340,6 +351,56 @@ theorem gen_Export_Table_eq (lens : List Nat) (nd : Nat) :
 theorem gen_Import_Table_eq (cols nd : Nat) : gen_Import_Table_columns nd cols = (importTableGuard true cols nd).stops := by
   unfold gen_Import_Table_columns importTableGuard; gen_eq
 
+theorem gen_PDF_Chi_Bar_Square_eq (ws : List Rat) :
+    (ws.any fun w => gen_PDF_Chi_Bar_Square_weight w) = (chiBarGuard ws).stops := by
+  unfold chiBarGuard
+  apply any_eq_stops_of_all
+  intro a; unfold gen_PDF_Chi_Bar_Square_weight; rw [Bool.eq_iff_iff]; simp <;> gen_arith
+theorem gen_CDF_Chi_Bar_Square_eq (ws : List Rat) :
+    (ws.any fun w => gen_CDF_Chi_Bar_Square_weight w) = (chiBarGuard ws).stops := by
+  unfold chiBarGuard
+  apply any_eq_stops_of_all
+  intro a; unfold gen_CDF_Chi_Bar_Square_weight; rw [Bool.eq_iff_iff]; simp <;> gen_arith
+
+/-! ## Guards added by the second audit (list lengths, negative dimensions, Monte Carlo region / calls) -/
+theorem gen_Minimize_deltas_eq (n m : Nat) : gen_Minimize_deltas n m = (simplexDeltasGuard n m).stops := by
+  unfold gen_Minimize_deltas simplexDeltasGuard; gen_eq
+theorem gen_Arithmetic_Mean_eq (n : Nat) : gen_Arithmetic_Mean n = (dataLengthGuard 1 n).stops := by
+  unfold gen_Arithmetic_Mean dataLengthGuard; gen_eq
+theorem gen_Median_eq (n : Nat) : gen_Median n = (dataLengthGuard 1 n).stops := by
+  unfold gen_Median dataLengthGuard; gen_eq
+theorem gen_Variance_eq (n : Nat) : gen_Variance n = (dataLengthGuard 2 n).stops := by
+  unfold gen_Variance dataLengthGuard; gen_eq
+theorem gen_Weighted_Average_eq (n : Nat) : gen_Weighted_Average n = (dataLengthGuard 2 n).stops := by
+  unfold gen_Weighted_Average dataLengthGuard; gen_eq
+theorem gen_Matrix_Resize_eq (r c : Int) : gen_Matrix_Resize r c = (matDimsGuard r c).stops := by
+  unfold gen_Matrix_Resize matDimsGuard; gen_eq
+theorem gen_Matrix_Assign_eq (r c : Int) : gen_Matrix_Assign r c = (matDimsGuard r c).stops := by
+  unfold gen_Matrix_Assign matDimsGuard; gen_eq
+/-- region test, then number of calls, then the method dispatch -/
+theorem gen_Integrate_MC_eq (rs : Nat) (n : Int) (method : String) :
+    (gen_Integrate_MC_region rs || gen_Integrate_MC_ncalls n method || (integrateMCGuard method).stops)
+      = (integrateMCShapeGuard rs n method).stops := by
+  unfold gen_Integrate_MC_region gen_Integrate_MC_ncalls integrateMCShapeGuard
+  by_cases h1 : rs = 0 ∨ rs % 2 ≠ 0
+  · rw [if_pos h1]; rcases h1 with h1 | h1 <;> simp [h1, G.stops, stop]
+  · rw [if_neg h1]; push Not at h1
+    by_cases h2 : n < 1 ∨ (method = "Vegas" ∧ n < 2)
+    · rw [if_pos h2]
+      rcases h2 with h2 | ⟨hm, h2⟩
+      · simp [h2, G.stops, stop]
+      · simp [hm, h2, G.stops, stop]
+    · rw [if_neg h2]; push Not at h2
+      have e1 : decide (rs = 0) = false := by simp [h1.1]
+      have e2 : decide (rs % 2 ≠ 0) = false := by simp [h1.2]
+      have e3 : decide (n < 1) = false := by simp; omega
+      have e4 : (decide (method = "Vegas") && decide (n < 2)) = false := by
+        by_cases hm : method = "Vegas"
+        · have := h2.2 hm; simp [hm]; omega
+        · simp [hm]
+      simp only [e1, e2, e3, e4, Bool.or_false, Bool.false_or, Nat.cast_ofNat]
+      first | done | simp
+
 /-! ## Early exits and early returns of every anchored function: the regenerated lists equal the committed expectation.
     An additional (or removed, or re-ordered, or changed) early `if( … ) exit/return` breaks the obligation; the test of a
     table entry appears as `@gen_<Entry>` and is pinned by its `gen_<Entry>_eq` theorem, so re-spelling it is harmless. -/
@@ -412,7 +473,7 @@ theorem gen_Gauss_Legendre_func_row_early_eq : gen_Gauss_Legendre_func_row_early
 theorem gen_Factorial_early_eq : gen_Factorial_early =
     ["@gen_Factorial", "n < FactorialList.size()"] := by decide
 theorem gen_Binomial_Coefficient_early_eq : gen_Binomial_Coefficient_early =
-    ["@gen_Binomial_Coefficient", "n < k", "170 < n"] := by decide
+    ["@gen_Binomial_Coefficient", "n < k"] := by decide
 theorem gen_GammaLn_early_eq : gen_GammaLn_early =
     ["@gen_GammaLn"] := by decide
 theorem gen_Gamma_early_eq : gen_Gamma_early =
@@ -424,7 +485,7 @@ theorem gen_Inv_GammaP_early_eq : gen_Inv_GammaP_early =
 theorem gen_Round_digits_early_eq : gen_Round_digits_early =
     ["@gen_Round_digits", "0 == N"] := by decide
 theorem gen_Inv_Erf_saturated_early_eq : gen_Inv_Erf_saturated_early =
-    ["@gen_Inv_Erf_saturated", "@gen_Inv_Erf_outside"] := by decide
+    ["@gen_Inv_Erf_saturated", "@gen_Inv_Erf_saturated_minus", "@gen_Inv_Erf_outside"] := by decide
 theorem gen_PMF_Binomial_early_eq : gen_PMF_Binomial_early =
     ["@gen_PMF_Binomial"] := by decide
 theorem gen_CDF_Binomial_early_eq : gen_CDF_Binomial_early =
@@ -471,6 +532,26 @@ theorem gen_Inv_GammaQ_probability_early_eq : gen_Inv_GammaQ_probability_early =
     ["@gen_Inv_GammaQ_probability"] := by decide
 theorem gen_Locate_Closest_Location_empty_early_eq : gen_Locate_Closest_Location_empty_early =
     ["@gen_Locate_Closest_Location_empty", "false == std::is_sorted(std::begin(sorted_list), std::end(sorted_list))", "it == sorted_list.end()", "0 == index", "index == sorted_list.size()", "diff1 < diff2"] := by decide
+theorem gen_Minimize_deltas_early_eq : gen_Minimize_deltas_early =
+    ["@gen_Minimize_deltas"] := by decide
+theorem gen_Arithmetic_Mean_early_eq : gen_Arithmetic_Mean_early =
+    ["@gen_Arithmetic_Mean"] := by decide
+theorem gen_Median_early_eq : gen_Median_early =
+    ["@gen_Median", "0 == data.size() % 2"] := by decide
+theorem gen_Variance_early_eq : gen_Variance_early =
+    ["@gen_Variance"] := by decide
+theorem gen_Weighted_Average_early_eq : gen_Weighted_Average_early =
+    ["@gen_Weighted_Average"] := by decide
+theorem gen_Matrix_Resize_early_eq : gen_Matrix_Resize_early =
+    ["@gen_Matrix_Resize"] := by decide
+theorem gen_Matrix_Assign_early_eq : gen_Matrix_Assign_early =
+    ["@gen_Matrix_Assign"] := by decide
+theorem gen_Integrate_MC_region_early_eq : gen_Integrate_MC_region_early =
+    ["@gen_Integrate_MC_region", "@gen_Integrate_MC_ncalls", "\"Monte-Carlo\" == method", "\"Vegas\" == method", "\"Miser\" == method", "else"] := by decide
+theorem gen_PDF_Chi_Bar_Square_weight_early_eq : gen_PDF_Chi_Bar_Square_weight_early =
+    ["x <= 0"] := by decide
+theorem gen_CDF_Chi_Bar_Square_weight_early_eq : gen_CDF_Chi_Bar_Square_weight_early =
+    ["x < 0", "1 < cdf"] := by decide
 theorem gen_Log_Likelihood_Poisson_Binned_early_eq : gen_Log_Likelihood_Poisson_Binned_early =
     ["@gen_Log_Likelihood_Poisson_Binned"] := by decide
 theorem gen_Sample_Metropolis_unbounded_early_eq : gen_Sample_Metropolis_unbounded_early =
